@@ -201,6 +201,29 @@ fn lits() {
     lit!("tab\there");
     lit!("0123456789abcdef0123456789abcdef0123456789abcdef0123456789abcdef/0123456789abcdef");
     out.ev(&json!({"op": "unix_lit", "b": [], "out": some_bytes(UnixStr::EMPTY.as_slice())}));
+    // format strings WITHOUT interpolated arguments take their own path through core::fmt
+    // (`Arguments::as_str()` is Some): literal-only formats, also ones already ending in NUL
+    macro_rules! fmt_lit {
+        ($l:literal) => {
+            out.ev(&json!({"op": "from_format", "a": [], "b": $l.as_bytes(),
+                           "out": res(guarded(|| UnixString::from_format(format_args!($l))), |s| some_bytes(s.as_slice()))}));
+            for base in ["", "a", "a/", "/"] {
+                let mut raw = base.as_bytes().to_vec();
+                raw.push(0);
+                let ub = unsafe { UnixStr::from_bytes_unchecked(&raw) };
+                out.ev(&json!({"op": "path_join_fmt", "a": base.as_bytes(), "b": $l.as_bytes(),
+                               "out": res(guarded(|| ub.path_join_fmt(format_args!($l))), |s| some_bytes(s.as_slice()))}));
+            }
+        };
+    }
+    fmt_lit!("");
+    fmt_lit!("a");
+    fmt_lit!("/a");
+    fmt_lit!("a/b");
+    fmt_lit!("\0");
+    fmt_lit!("a\0");
+    fmt_lit!("/a/b\0");
+    fmt_lit!("0123456789abcdef0123456789abcdef0123456789abcdef0123456789abcdef\0");
     out.flush();
 }
 
